@@ -3,6 +3,7 @@ package main
 import (
 	"bytes"
 	"fmt"
+	"github.com/gobwas/pool/pbytes"
 	"io"
 
 	"github.com/gobwas/ws"
@@ -81,6 +82,18 @@ func c08h(c *ctx) {
 				}
 			}
 		}()
+		// the caller looks at the reported reason after other traffic has gone through the pooled buffers
+		if op == 8 && len(pay) > 40 {
+			for _, sz := range []int{64, 128, 256} {
+				for k := 0; k < 3; k++ {
+					b := pbytes.GetLen(sz)
+					for i := range b {
+						b[i] = 0xA5
+					}
+					pbytes.Put(b)
+				}
+			}
+		}
 		e := newRev("handle")
 		e.setErr(err)
 		fs, rest := vh.ParseFrames(dst.Buf)
